@@ -2,6 +2,9 @@
 (* Trace validation for C05.  Three kinds of records (field `kind`):                      *)
 (*  "override"  one execution of  Fam(S).method(x, E)  against  Fam(Resolve(S,E)).method(x) *)
 (*              for one TLC-generated case (ParamRouting!Emit)                              *)
+(*  "intoverride" the same with integer-typed explicit values (valkind: python int, numpy int64 /  *)
+(*              int32 scalar, integer array; ParamRoutingOps!IntOverrideCases); the instance is       *)
+(*              constructed with the same integer objects                                             *)
 (*  "laws"      one table of a real distribution object at one parameter vector of one      *)
 (*              TLC-generated parameter class (DistLawsGen!Emit), with mpmath references    *)
 (*  "summary"   last record: TLC asserts that the executed cases are exactly the products    *)
@@ -90,6 +93,8 @@ LawsClauses(r) ==
 ----------------------------------------------------------------------------
 (* coverage *)
 Idx(kind) == {i \in 1..Len(TraceLog) : TraceLog[i].kind = kind}
+IntOverrideSeen == {<<TraceLog[i].fam, TraceLog[i].E, TraceLog[i].method, TraceLog[i].valkind,
+                      TraceLog[i].pass>> : i \in Idx("intoverride")}
 OverrideSeen == {<<TraceLog[i].fam, TraceLog[i].E, TraceLog[i].method, TraceLog[i].argkind,
                    TraceLog[i].pass>> : i \in Idx("override")}
 LawsSeen == {<<TraceLog[i].fam, TraceLog[i].cl>> : i \in {k \in Idx("laws") : TraceLog[k].ext = <<0, 0>>}}
@@ -97,12 +102,13 @@ ExtSeen == {<<TraceLog[i].fam, TraceLog[i].cl, TraceLog[i].ext>> :
               i \in {k \in Idx("laws") : TraceLog[k].ext # <<0, 0>>}}
 SummaryClauses(r) ==
   <<
-    <<"OverrideCoverage", OverrideSeen = OverrideCases /\ Cardinality(Idx("override")) = Cardinality(OverrideCases)>>,
+    <<"OverrideCoverage", OverrideSeen = OverrideCases /\ Cardinality(Idx("override")) = Cardinality(OverrideCases)
+                          /\ IntOverrideSeen = IntOverrideCases>>,
     <<"LawsCoverage", LawsSeen = LawCases(r.tier) /\ ExtSeen = ExtremeCases>>,
     <<"HistoriesReplayed", Cardinality(Idx("hist")) = r.nhist /\ r.nhist > 0>>
   >>
 
-Clauses(r) == CASE r.kind = "override" -> OverrideClauses(r)
+Clauses(r) == CASE r.kind \in {"override", "intoverride"} -> OverrideClauses(r)
                 [] r.kind = "laws" -> LawsClauses(r)
                 [] r.kind = "hist" -> HistClauses(r)
                 [] r.kind = "summary" -> SummaryClauses(r)
